@@ -186,7 +186,7 @@ func otClassdefReset(pairs int) []byte {
 	w.u16(2, 2*pairs)
 	for i := 0; i < pairs; i++ {
 		w.u16(1, 0xFFFE, 1+i%7) // glyphs 1..0xFFFE -> class
-		w.u16(0xFFFF, 0, 0)      // start 0xFFFF, end 0: empty, resets the cursor to 0
+		w.u16(0xFFFF, 0, 0)     // start 0xFFFF, end 0: empty, resets the cursor to 0
 	}
 	return w.b
 }
@@ -435,9 +435,9 @@ var c02amps = []c02amp{
 		w := &bw{}
 		// ligature subst: coverage, 1 ligature set with m ligature offsets that all
 		// point at one ligature record with componentCount = 0 (read as 65535 components)
-		w.u16(1, 8, 1, 14)    // format, coverageOffset, ligSetCount, ligSetOffset
-		w.u16(1, 1, 5)        // coverage format 1, 1 glyph
-		w.u16(m)              // at 14: ligature set: count, offsets from 14
+		w.u16(1, 8, 1, 14) // format, coverageOffset, ligSetCount, ligSetOffset
+		w.u16(1, 1, 5)     // coverage format 1, 1 glyph
+		w.u16(m)           // at 14: ligature set: count, offsets from 14
 		for i := 0; i < m; i++ {
 			w.u16(2 + 2*m)
 		}
@@ -662,4 +662,3 @@ var c02amps = []c02amp{
 			"loca": make([]byte, 2*(n+1)), "glyf": {0, 0, 0, 0}})
 	}},
 }
-
